@@ -552,7 +552,7 @@ Section Prog.
     assert (H3 : kmatch Cm k (f_head fs + 1 + bsize []) lp).
     { simpl bsize. replace (f_head fs + 1 + 0) with (f_head fs + 1) by lia. exact Hk. }
     remember (lexec fuel c [] [] k) as r eqn:Er. symmetry in Er.
-    destruct (exec_lexec (p_subs p) fuel c [] [] k eq_refl Hnk) as [_ Hnd]. rewrite Er in Hnd.
+    destruct (exec_lexec (all_flows p) fuel c [] [] k eq_refl Hnk) as [_ Hnd]. rewrite Er in Hnd.
     destruct r as [w' k' c' u'|name k' c' u'|c' u'| |]; simpl in Hnd; try contradiction;
       cbn [xres_of of_xres res_rel]; auto.
     - (* blocks again *)
@@ -803,7 +803,7 @@ Section Prog.
       assert (H3 : kmatch Cm KDone (1 + bsize rest0) None).
       { apply km_done. rewrite ECm, zlen_cons, compile_block_length. reflexivity. }
       remember (lexec fuel (st_ctx s) [] rest0 KDone) as r eqn:Er. symmetry in Er.
-      destruct (exec_lexec (p_subs p) fuel (st_ctx s) [] rest0 KDone Hnr eq_refl) as [_ Hnd]. rewrite Er in Hnd.
+      destruct (exec_lexec (all_flows p) fuel (st_ctx s) [] rest0 KDone Hnr eq_refl) as [_ Hnd]. rewrite Er in Hnd.
       destruct r as [w' k' c' u'|name k' c' u'|c' u'| |]; simpl in Hnd; try contradiction;
         cbn [xres_of of_xres res_rel]; auto.
       + assert (Hnf : LWait w' k' c' u' <> LFuel) by congruence.
@@ -852,10 +852,10 @@ Section Prog.
 
   Lemma resume_lexec : forall fuel c u k,
     nodo_kont k = true ->
-    resume (p_subs p) fuel c u k [] = xres_of (lexec fuel c u [] k).
+    resume (all_flows p) fuel c u k [] = xres_of (lexec fuel c u [] k).
   Proof.
     intros fuel c u k Hnk. destruct fuel as [|f]; [reflexivity|].
-    cbn [resume]. destruct (exec_lexec (p_subs p) (S f) c u [] k eq_refl Hnk) as [E Hnd]. rewrite E.
+    cbn [resume]. destruct (exec_lexec (all_flows p) (S f) c u [] k eq_refl Hnk) as [E Hnd]. rewrite E.
     destruct (lexec (S f) c u [] k); simpl in *; try reflexivity; contradiction.
   Qed.
 
@@ -882,7 +882,7 @@ Section Prog.
     all: try (match goal with
               | |- res_rel (fun f => compute_next_state _ f _ _ ?e) _ =>
                   destruct main_shape as (i0 & rest0 & Emain & Hwr & Hnr); rewrite Emain;
-                  destruct (exec_lexec (p_subs p) fuel (sp_ctx sp) [] rest0 KDone Hnr eq_refl) as [Ex _];
+                  destruct (exec_lexec (all_flows p) fuel (sp_ctx sp) [] rest0 KDone Hnr eq_refl) as [Ex _];
                   rewrite Ex, <- Hc; apply (idle_event fuel s e i0 rest0 I Emain Hshape)
               end).
     all: destruct Hshape as (fs & lp & Hfss & Hst & Hib & Hi & Hw & Hk & Hnk);
@@ -1088,7 +1088,7 @@ Lemma spec_follow : forall fuel p hist w k stk c ev,
   string_in (event_type ev) default_triggers = true ->
   wait_match w ev = true -> is_bot_stop ev = false ->
   next_steps fuel p (hist ++ [ev]) =
-  match resume (p_subs p) fuel c [] k stk with
+  match resume (all_flows p) fuel c [] k stk with
   | XWait w' _ _ _ u' => Ok ((match u' with [] => [] | _ => [OCtx u'] end) ++
                             (if actionable w' then [step_of_wait w'] else []))
   | XEnd _ u' => Ok (match u' with [] => [] | _ => [OCtx u'] end)
@@ -1099,12 +1099,12 @@ Proof.
   intros fuel p hist w k stk c ev (actual & sp & Hp & Hrun & Hst & Hc) Hpl Htr Hm Hstop.
   unfold next_steps. rewrite (preprocess_snoc hist [] actual ev); [|destruct ev; try congruence; contradiction|exact Hp].
   cbn [bind]. rewrite spec_run_snoc, Hrun. cbn [bind spec_run].
-  assert (E : spec_event fuel p sp ev = of_xres (resume (p_subs p) fuel c [] k stk)).
+  assert (E : spec_event fuel p sp ev = of_xres (resume (all_flows p) fuel c [] k stk)).
   { destruct ev; try contradiction; cbn [spec_event]; rewrite Hst, Htr; cbn [negb]; rewrite Hm, Hc; reflexivity. }
   rewrite E, Hstop.
   assert (Hlast : match actual ++ [ev] with [] => false | _ => is_bot_stop (last (actual ++ [ev]) EvHide) end = false).
   { rewrite last_last. destruct (actual ++ [ev]); [reflexivity|exact Hstop]. }
-  destruct (resume (p_subs p) fuel c [] k stk) as [w' k' stk' c' u'|c' u'| |]; cbn [of_xres bind]; try reflexivity.
+  destruct (resume (all_flows p) fuel c [] k stk) as [w' k' stk' c' u'|c' u'| |]; cbn [of_xres bind]; try reflexivity.
   - unfold spec_steps. cbn [sp_upd sp_next]. rewrite Hlast.
     destruct (actionable w'); destruct u'; reflexivity.
   - unfold spec_steps. cbn [sp_upd sp_next]. rewrite Hlast. rewrite app_nil_r. destruct u'; reflexivity.
